@@ -97,6 +97,8 @@ class InProcess:
                 ctx.maxi("max.steps_per_100_chars", int(100 * n / len(text)))
         if cls not in ("canonical", "corpus"):
             ctx.distinct([language, text])
+            if cls in ("soup", "targeted", "token_mutation", "arrow_soup") and len(ctx.samples) < 3 and 10 < len(text) < 200:
+                ctx.sample({"language": language, "class": cls, "input": text, "outcome": "list of measurements, no exception"})
 
 
 # ------------------------------------------------------------------------------------------------
@@ -194,9 +196,16 @@ def run_scans(ctx, root, case, cls):
         ctx.violation("scan_command_exception", case, {"class": cls, "error": f"{type(e).__name__}: {e}", "tb": short_tb(6)})
 
 
-def tree_cases(ctx, lang, rng, seed, n):
+def tree_cases(ctx, lang, rng, seed, n, part=0, parts=1):
     for i in range(n):
         files = hostile_tree_files(lang, rng, f"{seed}:{i}")
+        if i == 0:
+            # every declared-encoding case once per language, spread over the shards of the language
+            ext = canon.EXT[lang]
+            for j, (name, data) in enumerate(hostile.declared_encoding_cases(lang)):
+                if j % parts == part:
+                    files[f"enc/{name.replace('-', '_')}{ext}"] = data
+                    ctx.count("cases.declared_encoding_files")
         root = tempfile.mkdtemp(prefix="vf-c03-")
         outside = tempfile.mkdtemp(prefix="vf-c03-out-")
         try:
@@ -286,7 +295,7 @@ def run(shard, ctx):
     finally:
         ip.close()
     rng = rng_for(shard["seed"], "c03t", lang, shard["part"])
-    tree_cases(ctx, lang, rng, f"{shard['seed']}:{shard['part']}", shard["trees"])
+    tree_cases(ctx, lang, rng, f"{shard['seed']}:{shard['part']}", shard["trees"], shard["part"], shard["parts"])
     cli_cases(ctx, lang, rng, f"{shard['seed']}:{shard['part']}", shard["cli"])
     if shard["part"] == 0:
         import click
